@@ -75,6 +75,17 @@ MAPSETS = {
         (('B',), [('BB', 1)], [], [], {(0, 'b1'): {'BB': 1.0}, (0, 'b2'): {'BB': 1.0}}),
     ],
 }
+# a particle spanning two residues with a reference atom: its retained attributes come from the reference atom
+MAPSETS['spanning-reference'] = [
+    (('A', 'B'), [('M1', 1), ('M2', 2)], [('M1', 'M2')], [],
+     {(0, 'a1'): {'M1': 1.0}, (0, 'a2'): {'M1': 1.0}, (0, 'a3'): {'M2': 1.0}, (1, 'b1'): {'M2': 1.0}, (1, 'b2'): {'M2': 1.0}},
+     {'M2': (1, 'b1'), 'M1': (0, 'a1')}),
+]
+# weights normalised by the Mapping itself (normalize_weights=True): each particle's weights sum to 1
+MAPSETS['normalised'] = [
+    (('A',), [('BB', 1)], [], [], {(0, 'a1'): {'BB': 1.0}, (0, 'a2'): {'BB': 2.0}, (0, 'a3'): {'BB': 1.0}}, {}, True),
+    (('B',), [('BB', 1)], [], [], {(0, 'b1'): {'BB': 3.0}, (0, 'b2'): {'BB': 1.0}}, {}, True),
+]
 MAPSETS['overlap'] = MAPSETS['many-to-one'] + [
     (('A2',), [('EX', 1)], [], [], {(0, 'a2'): {'EX': 1.0}, (0, 'a3'): {'EX': 1.0}}),
 ]
@@ -90,7 +101,10 @@ def build_mappings(setname):
     ff_from, ff_to = ForceField(name='fa'), ForceField(name='fb')
     mappings = {'fa': {'fb': {}}}
     specs = MAPSETS[setname]
-    for names, beads, bead_edges, interactions, table in specs:
+    for spec in specs:
+        names, beads, bead_edges, interactions, table = spec[:5]
+        refs = spec[5] if len(spec) > 5 else {}
+        normalize = spec[6] if len(spec) > 6 else False
         block_from = vermouth.molecule.Molecule(force_field=ff_from)
         keys = {}
         resnames = [n if n in RES_ATOMS else 'A' for n in names]
@@ -117,8 +131,9 @@ def build_mappings(setname):
         for typ, atoms, params in interactions:
             block_to.add_interaction(typ, atoms, list(params))
         mapping = {keys[atom]: dict(weights) for atom, weights in table.items()}
-        mappings['fa']['fb'][names] = Mapping(block_from, block_to, mapping, {}, ff_from=ff_from, ff_to=ff_to,
-                                              names=names, type='block')
+        references = {bead: keys[atom] for bead, atom in refs.items()}
+        mappings['fa']['fb'][names] = Mapping(block_from, block_to, mapping, references, ff_from=ff_from, ff_to=ff_to,
+                                              names=names, type='block', normalize_weights=normalize)
     return ff_from, ff_to, mappings, specs
 
 
@@ -140,7 +155,7 @@ def build_molecule(ff, seq, shape, perm, inner_reverse, resid_scheme, extra):
                 # order is reversed: lowest-key order and highest-key order of the residues differ
                 keys[(r, atom)] = 100 + 10 * (n - 1 - perm[r]) + j
             else:
-                keys[(r, atom)] = 10 * perm[r] + j + 3
+                keys[(r, atom)] = 10 * perm[r] + j      # the lowest key is 0
     if extra:
         keys[(0, extra)] = 10 * perm[0] + 8
     for (r, atom), key in sorted(keys.items(), key=lambda kv: kv[1]):
@@ -186,7 +201,15 @@ def reference(seq, keys, resids, inter, specs, extra):
                 (extra and a[0] == 0 and {a[1], b[1]} == {extra, HEAD[seq[0]]})
         return frozenset((a, b)) in inter_set
     placements = []
-    for names, beads, bead_edges, interactions, table in specs:
+    for spec in specs:
+        names, beads, bead_edges, interactions, table = spec[:5]
+        refs = spec[5] if len(spec) > 5 else {}
+        if len(spec) > 6 and spec[6]:
+            totals = {}
+            for atom, weights in table.items():
+                for bead, w in weights.items():
+                    totals[bead] = totals.get(bead, 0.0) + w
+            table = {atom: {bead: w / totals[bead] for bead, w in weights.items()} for atom, weights in table.items()}
         resnames = [nm if nm in RES_ATOMS else 'A' for nm in names]
         k = len(resnames)
         for combo in itertools.permutations(range(n), k):
@@ -206,7 +229,8 @@ def reference(seq, keys, resids, inter, specs, extra):
                     ok = False
                     break
             if ok:
-                placements.append((names, beads, bead_edges, interactions, {target[pa]: w for pa, w in table.items()}))
+                placements.append((names, beads, bead_edges, interactions, {target[pa]: w for pa, w in table.items()},
+                                   {bead: target[pa] for bead, pa in refs.items()}))
     placements.sort(key=lambda p: min(keys[a] for a in p[4]))
     covered = {}
     overlap = False
@@ -215,7 +239,7 @@ def reference(seq, keys, resids, inter, specs, extra):
     inter_out = []
     offset = 0
     index = 0
-    for pidx, (names, beads, bead_edges, interactions, assign) in enumerate(placements):
+    for pidx, (names, beads, bead_edges, interactions, assign, prefs) in enumerate(placements):
         for atom in assign:
             if atom in covered:
                 overlap = True
@@ -232,6 +256,8 @@ def reference(seq, keys, resids, inter, specs, extra):
                 olds = {resids[a[0]] for a in constituents}
             else:
                 olds = {resids[a[0]] for a in assign}
+            if bead in prefs:
+                olds = {resids[prefs[bead][0]]}        # a reference atom decides the retained attributes
             beads_out.append({'atomname': bead, 'resid': resid + offset, 'old_resids': olds,
                               'constituents': {'%d:%s' % a: w for a, w in constituents.items()}, 'placement': pidx})
             index += 1
@@ -304,7 +330,8 @@ def check(seq, shape, perm, inner_reverse, resid_scheme, extra, setname, stash, 
                 want_pos = {t: w for t, w in b['constituents'].items() if w != 0}
                 zero_want = {t for t, w in b['constituents'].items() if w == 0}
                 zero_got = {t for t, w in g['cons'].items() if w == 0}
-                if pos != want_pos or not zero_want <= zero_got or (b['constituents'] and zero_got != zero_want):
+                same_pos = set(pos) == set(want_pos) and all(abs(pos[t] - want_pos[t]) <= 1e-12 for t in pos)
+                if not same_pos or not zero_want <= zero_got or (b['constituents'] and zero_got != zero_want):
                     problems.append(('c01:constituents', 'particle %s: atoms/weights %r, the mapping assigns %r' % (g['atomname'], g['cons'], b['constituents'])))
                     break
                 if g['graph'] is not None and sorted(g['cons']) != g['graph']:
@@ -458,6 +485,10 @@ def cases(tier):
                         out.append((seq, shape, perm, False, 'gapped', None, 'one-to-one', False))
                         out.append((seq, shape, perm, False, 'consecutive', None, 'overlap', True))
                         out.append((seq, shape, perm, True, 'consecutive', None, 'two-residue', True))
+                    for inner_reverse in (False, True, 'spread'):
+                        out.append((seq, shape, perm, inner_reverse, 'gapped', None, 'normalised', True))
+                        if 'A' in seq and 'B' in seq:
+                            out.append((seq, shape, perm, inner_reverse, 'gapped', None, 'spanning-reference', True))
     return out
 
 
